@@ -17,6 +17,7 @@ use vek::ops::MulAdd;
 use vx::fr::Deg;
 use vx::lattice::*;
 use vx::matx::*;
+use vek::vec::repr_c::{Extent3, Rgb, Uvw};
 use vx::q::unmodelled;
 use vx::*;
 
@@ -165,12 +166,16 @@ impl ToPrimitive for Sd {
     fn to_u64(&self) -> Option<u64> { unmodelled("cast of a surd") }
     fn to_f64(&self) -> Option<f64> { Some(self.shadow()) }
 }
-impl NumCast for Sd { fn from<T: ToPrimitive>(n: T) -> Option<Sd> { match n.to_f64() { Some(f) if f == f.trunc() && f.abs() < 1e15 => Some(Sd::int(f as i128)), _ => unmodelled("numcast of a non-integer to a surd") } } }
+// audit round 3: a non-integer literal (a threshold such as 1e-6 cast with `T::from`) is taken at the exact value of the f64 instead of
+// blinding the exact tier (every call of a guarded builder used to count as "unmodelled", which is never a verdict)
+impl NumCast for Sd { fn from<T: ToPrimitive>(n: T) -> Option<Sd> { match n.to_f64() { Some(f) if f == f.trunc() && f.abs() < 1e15 => Some(Sd::int(f as i128)), Some(f) => match Q::from_f64(f) { Some(q) => Some(Sd::rat(q)), None => unmodelled("numcast of a non-integer to a surd") }, _ => unmodelled("numcast of a non-integer to a surd") } } }
 impl MulAdd<Sd, Sd> for Sd { type Output = Sd; fn mul_add(self, a: Sd, b: Sd) -> Sd { self * a + b } }
 impl Real for Sd {
     fn min_value() -> Sd { unmodelled("min_value") }
     fn min_positive_value() -> Sd { unmodelled("min_positive_value") }
-    fn epsilon() -> Sd { unmodelled("epsilon (code inspects values)") }
+    // audit round 3: 2^-52 as on the harness' X type (was Unmodelled: code that compares a length with an epsilon made the whole exact
+    // tier silently vacuous); the exact sections hold inputs on both sides of it (scale pairs 2^+-40 of the rescaled section)
+    fn epsilon() -> Sd { Sd::rat(Q::new(1, 1i128 << 52)) }
     fn max_value() -> Sd { unmodelled("max_value") }
     fn floor(self) -> Sd { unmodelled("floor") }
     fn ceil(self) -> Sd { unmodelled("ceil") }
@@ -716,7 +721,7 @@ fn look_float_scaled<T: Fl>(s: &Section) {
 }
 
 // ---- operand forms -----------------------------------------------------------------------------------
-const FORMS: [&str; 4] = ["Vec4", "[T; 3]", "(T, T, T)", "Vec2"];
+const FORMS: [&str; 10] = ["Vec4", "[T; 3]", "(T, T, T)", "Vec2", "Extent3", "Rgb", "Uvw", "mint::Vector3", "mint::Point3", "(Vec2, T)"]; // 4.. added by audit round 3
 macro_rules! six_on { ($M:ident, $dec:ident, $f:expr, $e:expr, $t:expr, $u:expr) => { match $f {
     0 => $dec(&$M::Mat4::look_at_lh($e, $t, $u)), 1 => $dec(&$M::Mat4::look_at_rh($e, $t, $u)),
     2 => $dec(&$M::Mat4::model_look_at_lh($e, $t, $u)), 3 => $dec(&$M::Mat4::model_look_at_rh($e, $t, $u)),
@@ -735,6 +740,19 @@ fn call6_form<T: Real + Add<T, Output = T> + MulAdd<T, T, Output = T>>(lay: usiz
         (1, 2) => six_on!(cm, dc4, f, tu(e), tu(t), tu(u)),
         (0, 3) => six_on!(rm, dr4, f, q2(e), q2(t), q2(u)),
         (1, 3) => six_on!(cm, dc4, f, q2(e), q2(t), q2(u)),
+        // the remaining members of the `Into<Vec3<T>>` family (struct literals: the conversions under test are vek's `From` impls)
+        (0, 4) => six_on!(rm, dr4, f, Extent3 { w: e[0], h: e[1], d: e[2] }, Extent3 { w: t[0], h: t[1], d: t[2] }, Extent3 { w: u[0], h: u[1], d: u[2] }),
+        (1, 4) => six_on!(cm, dc4, f, Extent3 { w: e[0], h: e[1], d: e[2] }, Extent3 { w: t[0], h: t[1], d: t[2] }, Extent3 { w: u[0], h: u[1], d: u[2] }),
+        (0, 5) => six_on!(rm, dr4, f, Rgb { r: e[0], g: e[1], b: e[2] }, Rgb { r: t[0], g: t[1], b: t[2] }, Rgb { r: u[0], g: u[1], b: u[2] }),
+        (1, 5) => six_on!(cm, dc4, f, Rgb { r: e[0], g: e[1], b: e[2] }, Rgb { r: t[0], g: t[1], b: t[2] }, Rgb { r: u[0], g: u[1], b: u[2] }),
+        (0, 6) => six_on!(rm, dr4, f, Uvw { u: e[0], v: e[1], w: e[2] }, Uvw { u: t[0], v: t[1], w: t[2] }, Uvw { u: u[0], v: u[1], w: u[2] }),
+        (1, 6) => six_on!(cm, dc4, f, Uvw { u: e[0], v: e[1], w: e[2] }, Uvw { u: t[0], v: t[1], w: t[2] }, Uvw { u: u[0], v: u[1], w: u[2] }),
+        (0, 7) => six_on!(rm, dr4, f, mint::Vector3 { x: e[0], y: e[1], z: e[2] }, mint::Vector3 { x: t[0], y: t[1], z: t[2] }, mint::Vector3 { x: u[0], y: u[1], z: u[2] }),
+        (1, 7) => six_on!(cm, dc4, f, mint::Vector3 { x: e[0], y: e[1], z: e[2] }, mint::Vector3 { x: t[0], y: t[1], z: t[2] }, mint::Vector3 { x: u[0], y: u[1], z: u[2] }),
+        (0, 8) => six_on!(rm, dr4, f, mint::Point3 { x: e[0], y: e[1], z: e[2] }, mint::Point3 { x: t[0], y: t[1], z: t[2] }, mint::Point3 { x: u[0], y: u[1], z: u[2] }),
+        (1, 8) => six_on!(cm, dc4, f, mint::Point3 { x: e[0], y: e[1], z: e[2] }, mint::Point3 { x: t[0], y: t[1], z: t[2] }, mint::Point3 { x: u[0], y: u[1], z: u[2] }),
+        (0, 9) => six_on!(rm, dr4, f, (q2(e), e[2]), (q2(t), t[2]), (q2(u), u[2])),
+        (1, 9) => six_on!(cm, dc4, f, (q2(e), e[2]), (q2(t), t[2]), (q2(u), u[2])),
         _ => unreachable!(),
     }
 }
@@ -742,6 +760,12 @@ macro_rules! basis_on { ($M:ident, $dec:ident, $b:expr, $o:expr, $i:expr, $j:exp
 fn basis_form<T: Real + Add<T, Output = T>>(lay: usize, b2l_: bool, form: usize, o: &[T; 3], i: &[T; 3], j: &[T; 3], k: &[T; 3], w: &[T; 4]) -> A<T, 4> {
     let q4 = |a: &[T; 3], w: T| Vec4 { x: a[0], y: a[1], z: a[2], w };
     let tu = |a: &[T; 3]| (a[0], a[1], a[2]);
+    let ex = |a: &[T; 3]| Extent3 { w: a[0], h: a[1], d: a[2] };
+    let rg = |a: &[T; 3]| Rgb { r: a[0], g: a[1], b: a[2] };
+    let uw = |a: &[T; 3]| Uvw { u: a[0], v: a[1], w: a[2] };
+    let mv = |a: &[T; 3]| mint::Vector3 { x: a[0], y: a[1], z: a[2] };
+    let mp = |a: &[T; 3]| mint::Point3 { x: a[0], y: a[1], z: a[2] };
+    let vt = |a: &[T; 3]| (Vec2 { x: a[0], y: a[1] }, a[2]);
     match (lay, form) {
         (0, 0) => basis_on!(rm, dr4, b2l_, q4(o, w[0]), q4(i, w[1]), q4(j, w[2]), q4(k, w[3])),
         (1, 0) => basis_on!(cm, dc4, b2l_, q4(o, w[0]), q4(i, w[1]), q4(j, w[2]), q4(k, w[3])),
@@ -749,6 +773,18 @@ fn basis_form<T: Real + Add<T, Output = T>>(lay: usize, b2l_: bool, form: usize,
         (1, 1) => basis_on!(cm, dc4, b2l_, *o, *i, *j, *k),
         (0, 2) => basis_on!(rm, dr4, b2l_, tu(o), tu(i), tu(j), tu(k)),
         (1, 2) => basis_on!(cm, dc4, b2l_, tu(o), tu(i), tu(j), tu(k)),
+        (0, 4) => basis_on!(rm, dr4, b2l_, ex(o), ex(i), ex(j), ex(k)),
+        (1, 4) => basis_on!(cm, dc4, b2l_, ex(o), ex(i), ex(j), ex(k)),
+        (0, 5) => basis_on!(rm, dr4, b2l_, rg(o), rg(i), rg(j), rg(k)),
+        (1, 5) => basis_on!(cm, dc4, b2l_, rg(o), rg(i), rg(j), rg(k)),
+        (0, 6) => basis_on!(rm, dr4, b2l_, uw(o), uw(i), uw(j), uw(k)),
+        (1, 6) => basis_on!(cm, dc4, b2l_, uw(o), uw(i), uw(j), uw(k)),
+        (0, 7) => basis_on!(rm, dr4, b2l_, mv(o), mv(i), mv(j), mv(k)),
+        (1, 7) => basis_on!(cm, dc4, b2l_, mv(o), mv(i), mv(j), mv(k)),
+        (0, 8) => basis_on!(rm, dr4, b2l_, mp(o), mp(i), mp(j), mp(k)),
+        (1, 8) => basis_on!(cm, dc4, b2l_, mp(o), mp(i), mp(j), mp(k)),
+        (0, 9) => basis_on!(rm, dr4, b2l_, vt(o), vt(i), vt(j), vt(k)),
+        (1, 9) => basis_on!(cm, dc4, b2l_, vt(o), vt(i), vt(j), vt(k)),
         _ => unreachable!(),
     }
 }
@@ -764,6 +800,7 @@ fn ref_b2l(o: &[X; 3], i: &[X; 3], j: &[X; 3], k: &[X; 3]) -> A<X, 4> {
 
 fn operand_forms(s: &Section) {
     s.require_classes(&["Vec4 with point/direction w (1,1,0)", "Vec4 with junk w", "[T; 3]", "(T, T, T)", "Vec2 (z = 0 plane)", "basis: mirror", "basis: proper"]);
+    s.require_classes(&FORMS[4..]);
     // look-at
     let triples: Vec<(P, P, P)> = small_triples(false).into_iter().filter(|(e, t, u)| cross_i(u, &sub_i(t, e)) != [0, 0, 0]).collect();
     triples.par_iter().for_each(|(e, t, up)| {
@@ -773,8 +810,8 @@ fn operand_forms(s: &Section) {
         let refs = [rv_lh, rv_rh, rm_lh, rm_rh];
         let planar = e[2] == 0 && t[2] == 0 && up[2] == 0;
         let ws: [[Sd; 3]; 2] = [[Sd::int(1), Sd::int(1), Sd::ZERO], [Sd::int(7), Sd::int(-3), Sd::int(5)]];
-        let mut n = [0u64; 5];
-        for form in 0..4 { for (wi, w) in ws.iter().enumerate() {
+        let mut n = [0u64; 11];
+        for form in 0..FORMS.len() { for (wi, w) in ws.iter().enumerate() {
             if form != 0 && wi == 1 { continue; }
             if form == 3 && !planar { continue; }
             n[if form == 0 { wi } else { form + 1 }] += 1;
@@ -789,6 +826,7 @@ fn operand_forms(s: &Section) {
         let tot: u64 = n.iter().sum();
         s.evals(12 * tot, 12 * tot);
         s.class_n("Vec4 with point/direction w (1,1,0)", n[0]); s.class_n("Vec4 with junk w", n[1]); s.class_n("[T; 3]", n[2]); s.class_n("(T, T, T)", n[3]); s.class_n("Vec2 (z = 0 plane)", n[4]);
+        for form in 4..FORMS.len() { s.class_n(FORMS[form], n[form + 1]); }
     });
     // change of basis
     let axes: Vec<[X; 3]> = unit_axes().into_iter().enumerate().filter(|(n, _)| s.thorough() || n % 8 == 1).map(|(_, a)| a).collect();
@@ -799,7 +837,7 @@ fn operand_forms(s: &Section) {
         let o = [qi(2), qi(-1), q(3, 2)];
         s.class(if flip == 1 { "basis: proper" } else { "basis: mirror" });
         let w = [qi(1), qi(0), qi(-4), qi(9)];
-        for form in 0..3 { for lay in 0..2 { for b in [false, true] {
+        for form in [0usize, 1, 2, 4, 5, 6, 7, 8, 9] { for lay in 0..2 { for b in [false, true] {
             s.eval(true);
             let name = if b { "basis_to_local" } else { "local_to_basis" };
             let st = format!("{}({})", bsite(lay, name), FORMS[form]);
@@ -809,6 +847,17 @@ fn operand_forms(s: &Section) {
             if g != want { emit(s, &st, "wrong-matrix-for-operand-form", 0, || json!({"input": inp(), "got": jmat(&g), "want": jmat(&want)})); }
         } } }
     } } }
+    // audit round 3: the scalar member of the family (`impl From<T> for Vec3<T>`, broadcast). Every look-at triple it can express is degenerate and no
+    // broadcast basis is orthonormal, but local_to_basis is claimed for all inputs: [i j k | o] with every column constant
+    s.require_classes(&["T (broadcast), local_to_basis only"]);
+    for (o, i, j, k) in [(qi(2), qi(3), qi(5), qi(7)), (q(-1, 2), qi(0), qi(1), q(9, 4)), (qi(0), qi(-6), q(1, 3), qi(1))] { for lay in 0..2 {
+        s.eval(true); s.class("T (broadcast), local_to_basis only");
+        let st = format!("{}(T (broadcast))", bsite(lay, "local_to_basis"));
+        let inp = || json!({"origin": jx(o), "i": jx(i), "j": jx(j), "k": jx(k), "operand_type": "T (broadcast to all three lanes)"});
+        let got = s.call(&st, inp, || if lay == 0 { dr4(&rm::Mat4::local_to_basis(o, i, j, k)) } else { dc4(&cm::Mat4::local_to_basis(o, i, j, k)) });
+        let want = ref_l2b(&[o; 3], &[i; 3], &[j; 3], &[k; 3]);
+        if let Some(g) = got { if g != want { emit(s, &st, "wrong-matrix-for-operand-form", 0, || json!({"input": inp(), "got": jmat(&g), "want": jmat(&want)})); } }
+    } }
     s.meta("alphabet", json!({"look_at_triples": triples.len(), "forms": FORMS, "basis_axes": axes.len(), "angles": circ.len()}));
     s.sample(json!({"eye (Vec4)": [1, -2, 1, 7], "target (Vec4)": [2, -2, 0, -3], "up (Vec4)": [0, 1, 0, 5], "note": "fourth components are dropped by From<Vec4> for Vec3; the matrix must be the Vec3 one"}));
 }
@@ -896,6 +945,287 @@ fn l2b_integers<T: IntEl>(s: &Section) {
             }
         }
     } }
+}
+
+// =================================================================================================
+// audit additions (round 3): inputs around the special values a shortcut or an "equivalent" rewrite keys on.
+//  * exact-by-construction float inputs (view along an axis, up in a coordinate plane containing it): every intermediate of
+//    normalise / cross / normalise / dot is then exact for ARBITRARY magnitudes (sqrt(x*x) = |x|, x/|x| = +-1, y*0 = 0, y*1 = y),
+//    so the matrix is a signed permutation with translation -+eye lane and is compared with ==
+//  * general position with a derived bound: eye and view direction at different scales (close points far from the origin, far
+//    target seen from near the origin) and narrow angles between up and the view
+//  * change of basis on the exactly orthonormal float bases (signed permutations) with origins of mixed, awkward magnitudes
+// =================================================================================================
+trait FlX: Fl {
+    const EPS: f64; const LIM: i32; const MAXV: f64; const MINPOS: f64; const MINSUB: f64;
+    /// k units in the last place away from the positive value v (v representable in the type)
+    fn bump(v: f64, k: i64) -> f64;
+    /// v rounded once to the type
+    fn r(v: f64) -> f64 { Self::f(v).d() }
+}
+impl FlX for f64 {
+    const EPS: f64 = f64::EPSILON; const LIM: i32 = 500; const MAXV: f64 = f64::MAX; const MINPOS: f64 = f64::MIN_POSITIVE; const MINSUB: f64 = 5e-324;
+    fn bump(v: f64, k: i64) -> f64 { f64::from_bits((v.to_bits() as i64 + k) as u64) }
+}
+impl FlX for f32 {
+    const EPS: f64 = f32::EPSILON as f64; const LIM: i32 = 60; const MAXV: f64 = f32::MAX as f64; const MINPOS: f64 = f32::MIN_POSITIVE as f64; const MINSUB: f64 = 1.401298464324817e-45;
+    fn bump(v: f64, k: i64) -> f64 { f32::from_bits(((v as f32).to_bits() as i64 + k) as u32) as f64 }
+}
+/// positive values of the type around everything a guard could key on; the first `core` entries are the quick tier's second factor.
+/// Policy: 2^-LIM <= v <= 2^LIM, so v*v is a normal number of the type (each operand's own squared length is representable).
+fn awkward<T: FlX>(th: bool) -> (Vec<f64>, usize) {
+    let e = T::EPS;
+    let mut v: Vec<f64> = vec![1.0, T::bump(1.0, 1), T::bump(1.0, -1), T::r(0.1), 49.0, e / 2.0, p2(-T::LIM), p2(T::LIM), T::r(1e-3), 7.0, T::bump(1.0, 3), p2(-30)];
+    let core = v.len();
+    for k in [-4i64, -2, 2, 4, 8] { v.push(T::bump(1.0, k)); }
+    for x in [1.0 + p2(-10), 1.0 - p2(-10), 1.0 + 1e-4, 1.0 - 1e-6, 1.0 + 1e-6, 1.0 - 1e-3] { v.push(T::r(x)); }
+    for t in [e, 4.0 * e, e.sqrt(), e * e, 1e-4, 1e-5, 1e-6, 1e-7, 1e-8, 1e-10, 1e-12, 1e-16] { for k in [-1i64, 0, 1] { v.push(T::bump(T::r(t), k)); } }
+    for x in [0.3, 1.0 / 3.0, 0.7, 1.7, 2.3, 3.0, 5.0, 10.0, 41.0, 47.0, 97.0, 100.0, 103.0, 107.0, 1000.1, 3.0 * p2(T::LIM - 2), 3.0 * p2(-T::LIM), p2(T::LIM / 2), p2(-T::LIM / 2)] { v.push(T::r(x)); }
+    if th { for n in 2..=200 { v.push(n as f64); } for n in 1..=60 { v.push(T::r(n as f64 / 61.0)); v.push(T::r(1.0 + n as f64 * 1e-3)); } }
+    let mut out: Vec<f64> = Vec::new();
+    for x in v { assert!(x > 0.0 && T::r(x) == x && x >= p2(-T::LIM) && x <= p2(T::LIM)); if !out.contains(&x) { out.push(x); } }
+    (out, core)
+}
+/// reference for an axis-aligned camera from signs alone: f = sd e_a, u = sp e_b, s = u x f (lh) / f x u (rh); [view_lh, view_rh, model_lh, model_rh]
+fn axis_want(a: usize, b: usize, sd: i32, sp: i32, eye: &[f64; 3]) -> [A<f64, 4>; 4] {
+    let mut f = [0i32; 3]; f[a] = sd;
+    let mut u = [0i32; 3]; u[b] = sp;
+    let nf = [-f[0], -f[1], -f[2]];
+    let build = |s: P, fz: P| -> (A<f64, 4>, A<f64, 4>) {
+        let rows = [s, u, fz];
+        let (mut v, mut m) = ([[0.0f64; 4]; 4], [[0.0f64; 4]; 4]);
+        for i in 0..3 { for j in 0..3 { v[i][j] = rows[i][j] as f64; m[j][i] = rows[i][j] as f64; if rows[i][j] != 0 { v[i][3] = -(rows[i][j] as f64 * eye[j]); } } m[i][3] = eye[i]; }
+        v[3][3] = 1.0; m[3][3] = 1.0;
+        (v, m)
+    };
+    let (vl, ml) = build(cross_i(&u, &f), f);
+    let (vr, mr) = build(cross_i(&f, &u), nf);
+    [vl, vr, ml, mr]
+}
+fn eq4<T: Fl>(g: &A<T, 4>, w: &A<f64, 4>) -> bool { (0..4).all(|i| (0..4).all(|j| g[i][j].d() == w[i][j])) }
+fn jf4<T: Fl>(g: &A<T, 4>) -> Value { json!(g.iter().map(|r| r.iter().map(|x| x.d()).collect::<Vec<f64>>()).collect::<Vec<_>>()) }
+
+fn look_axis_exact<T: FlX>(s: &Section) {
+    s.require_classes(&["view length nearly one (within 8 ulp, not one)", "perpendicular part of up nearly one (within 8 ulp, not one)", "view length with c * (1/c) != 1 in the type",
+        "narrow angle: |p| <= 2^-20 |q|", "narrow angle: sin^2 below the type's epsilon", "view shorter than epsilon", "view longer than 2^LIM / 8", "up perpendicular part below epsilon", "non-dyadic length",
+        "eye lane far from the origin, short view", "eye lane near the origin, far target (difference rounds)", "view along x", "view along y", "view along z", "view against the axis", "up against the axis",
+        "eye lanes huge / subnormal", "reference agrees with the Gram-Schmidt reference on an integer camera"]);
+    let th = s.thorough();
+    let (al, core) = awkward::<T>(th);
+    // machinery: the sign-only reference against the surd reference on integer cameras of all 24 configurations
+    for a in 0..3 { for b in 0..3 { if a == b { continue; } for sd in [1, -1] { for sp in [1, -1] {
+        let e: P = [1, -2, 3]; let mut t = e; t[a] += 2 * sd; let mut up: P = [0; 3]; up[b] = 3 * sp; up[a] = 1;
+        let (vl, ml, _, _) = ref_view(&e, &t, &up, true); let (vr, mr, _, _) = ref_view(&e, &t, &up, false);
+        let w = axis_want(a, b, sd, sp, &[1.0, -2.0, 3.0]);
+        if [shadow4(&vl), shadow4(&vr), shadow4(&ml), shadow4(&mr)] != w { s.rep.machinery_error(format!("axis reference differs from the Gram-Schmidt reference at a={} b={} sd={} sp={}", a, b, sd, sp)); }
+        s.class("reference agrees with the Gram-Schmidt reference on an integer camera");
+    } } } }
+    // (eye lane, target lane) along the view axis: (0, +-c) for every alphabet value, then pairs away from the origin whose difference is
+    // whatever the type's subtraction makes of it (the oracle only needs its sign)
+    let mut vps: Vec<(f64, f64, bool)> = Vec::new();
+    for (n, &c) in al.iter().enumerate() { vps.push((0.0, c, n < core)); vps.push((0.0, -c, n < core)); }
+    let far: Vec<(f64, f64)> = vec![(T::r(0.1), T::r(1.1)), (T::r(0.3), T::r(1.3)), (T::r(-0.7), T::r(0.3)), (T::r(100.1), T::r(101.1)), (3.0, p2(30)), (p2(30), 3.0), (1e6, 1e6 + 0.5),
+        (T::r(-1e-3), T::r(1e-3)), (p2(20) + 1.0, p2(20)), (T::r(2.3), T::bump(T::r(2.3), 1)), (-5.0, p2(22) + 1.0), (T::r(1e6 + 0.25), T::r(1e6 - 0.75))];
+    for &(x, y) in &far { vps.push((x, y, true)); vps.push((y, x, true)); }
+    let qs: Vec<f64> = if th { vec![0.0, 1.0, -3.0 * p2(20), T::r(0.3), p2(T::LIM - 2)] } else { vec![0.0, 1.0, -3.0 * p2(20)] };
+    let mut eos: Vec<(f64, f64)> = vec![(T::r(0.1), -T::r(2.3)), (-3.0 * p2(T::LIM), T::MINSUB)];
+    if th { eos.push((0.0, 0.0)); eos.push((T::r(1e6 + 0.25), -T::r(1.0 / 3.0))); }
+    let sites: Vec<Vec<String>> = (0..2).map(|lay| (0..6).map(|f| format!("{}<{}>", site(lay, f), T::NAME)).collect()).collect();
+    let lo = p2(-T::LIM); let hi = p2(T::LIM);
+    vps.par_iter().for_each(|&(ea, ta, vcore)| {
+        let mut cnt = Cnt::default();
+        let cd = (T::f(ta) - T::f(ea)).d(); // the view lane as the type computes it
+        if !(cd.abs() >= lo && cd.abs() <= hi) { s.rep.machinery_error(format!("view lane {} - {} outside the magnitude policy", ta, ea)); return; }
+        let sd = if ta > ea { 1 } else { -1 };
+        let one = T::f(1.0);
+        let recip_unsafe = (T::f(cd) * (one / T::f(cd))).d() != 1.0;
+        for (pn, &pa) in al.iter().enumerate() {
+            let _ = vcore; // (the quick tier used to restrict one factor to the core prefix; the section is cheap enough for the full product)
+            for sp in [1i32, -1] { for &q in &qs { for (eon, &(eb, ec)) in eos.iter().enumerate() { for a in 0..3usize { for bsel in 0..2usize {
+                let b = [[1, 2], [0, 2], [0, 1]][a][bsel]; let c = 3 - a - b;
+                let p = pa * sp as f64;
+                let (mut e, mut t, mut u) = ([0.0f64; 3], [0.0f64; 3], [0.0f64; 3]);
+                e[a] = ea; e[b] = eb; e[c] = ec; t = { t[a] = ta; t[b] = eb; t[c] = ec; t }; u[b] = p; u[a] = q;
+                cnt.triples += 1; if cd.abs() != 1.0 || pa != 1.0 { cnt.nontrivial += 1; }
+                // classes
+                let near1 = |x: f64| x != 1.0 && (x - 1.0).abs() <= 8.0 * T::EPS;
+                if near1(cd.abs()) { cnt.hit("view length nearly one (within 8 ulp, not one)"); }
+                if near1(pa) { cnt.hit("perpendicular part of up nearly one (within 8 ulp, not one)"); }
+                if recip_unsafe { cnt.hit("view length with c * (1/c) != 1 in the type"); }
+                if q != 0.0 && pa <= p2(-20) * q.abs() { cnt.hit("narrow angle: |p| <= 2^-20 |q|"); if (pa / q.abs()) * (pa / q.abs()) < T::EPS { cnt.hit("narrow angle: sin^2 below the type's epsilon"); } }
+                if cd.abs() < T::EPS { cnt.hit("view shorter than epsilon"); } if cd.abs() >= hi / 8.0 { cnt.hit("view longer than 2^LIM / 8"); }
+                if pa < T::EPS { cnt.hit("up perpendicular part below epsilon"); }
+                if Q::from_f64(cd).map_or(true, |x| x.d > (1i128 << 20)) && cd.abs() > 1e-3 && cd.abs() < 1e3 { cnt.hit("non-dyadic length"); }
+                if ea.abs() >= 1e5 && cd.abs() <= 2.0 { cnt.hit("eye lane far from the origin, short view"); }
+                if ea != 0.0 && ea.abs() <= 8.0 && cd.abs() >= p2(20) { cnt.hit("eye lane near the origin, far target (difference rounds)"); }
+                cnt.hit(["view along x", "view along y", "view along z"][a]);
+                if sd < 0 { cnt.hit("view against the axis"); } if sp < 0 { cnt.hit("up against the axis"); }
+                if eb.abs() > hi { cnt.hit("eye lanes huge / subnormal"); }
+                let want = axis_want(a, b, sd, sp, &e);
+                let (ef, tf, uf) = ([T::f(e[0]), T::f(e[1]), T::f(e[2])], [T::f(t[0]), T::f(t[1]), T::f(t[2])], [T::f(u[0]), T::f(u[1]), T::f(u[2])]);
+                let inp = || json!({"eye": e, "target": t, "up": u, "type": T::NAME});
+                for lay in 0..2 { for f in 0..6 {
+                    let Some(g) = s.call(&sites[lay][f], inp, || call6::<T>(lay, f, &ef, &tf, &uf)) else { continue };
+                    let cands: &[usize] = match f { 0 => &[0], 1 => &[1], 2 => &[2], 3 => &[3], 4 => &[0, 1], _ => &[2, 3] };
+                    if !cands.iter().any(|&k| eq4(&g, &want[k])) {
+                        let w = (pn as u64) + if q == 0.0 { 0 } else { 50 } + if ea == 0.0 { 0 } else { 100 } + 200 * eon as u64 + if sp < 0 { 2 } else { 0 } + a as u64 + bsel as u64;
+                        emit(s, &sites[lay][f], "not-exact-on-axis-aligned-camera", w, || json!({"input": inp(), "got": jf4(&g), "want (exact: signed permutation, translation = -+ eye lane)": want[cands[0]],
+                            "view_lane_as_computed": cd, "why_exact": "sqrt(c*c) = |c| and c/|c| = +-1 in binary floating point when c*c neither overflows nor underflows; every other product has a factor 0 or +-1"}));
+                    }
+                } }
+            } } } } }
+        }
+        cnt.flush(s, 12);
+    });
+    s.meta("alphabet", json!({"lengths (view lane and perpendicular part of up)": al, "core_prefix": core, "view_lane_pairs_away_from_origin": far, "up_component_along_the_view": qs, "other_eye_lanes": eos,
+        "magnitude_policy": format!("2^-{} <= |length| <= 2^{}", T::LIM, T::LIM)}));
+    s.sample(json!({"eye": [0.0, T::r(0.1), -T::r(2.3)], "target": [T::bump(1.0, 1), T::r(0.1), -T::r(2.3)], "up": [-3.0 * p2(20), p2(-30), 0.0], "type": T::NAME,
+        "look_at_rh (row-major)": jf4(&call6::<T>(0, 1, &[T::f(0.0), T::f(0.1), T::f(-2.3)], &[T::f(T::bump(1.0, 1)), T::f(0.1), T::f(-2.3)], &[T::f(-3.0 * p2(20)), T::f(p2(-30)), T::f(0.0)]))}));
+}
+
+/// entry-wise judgement of the float tiers: linear part within 256 eps kappa, translation (reference * tr_mul) within 256 eps kappa |eye|_1 tr_mul, last row exact
+fn judge<T: Fl>(g: &A<T, 4>, want: &A<f64, 4>, kappa: f64, tr_mul: f64, eye1: f64) -> (bool, f64) {
+    let mut ok = g[3][0].d() == 0.0 && g[3][1].d() == 0.0 && g[3][2].d() == 0.0 && g[3][3].d() == 1.0;
+    let mut wst = 0.0f64;
+    for i in 0..3 { for j in 0..4 {
+        let (wv, sc) = if j < 3 { (want[i][j], kappa) } else { (want[i][3] * tr_mul, kappa * eye1 * tr_mul) };
+        if !g[i][j].close(wv, sc) { ok = false; }
+        if sc > 0.0 { let dd = (g[i][j].d() - wv).abs() / sc; if dd > wst || dd.is_nan() { wst = dd; } }
+    } }
+    (ok, wst)
+}
+fn best_of(rs: &[(bool, f64)]) -> (bool, f64) { rs.iter().cloned().fold((false, f64::INFINITY), |a, b| if b.0 && !a.0 { b } else if a.0 && !b.0 { a } else if b.1 < a.1 { b } else { a }) }
+
+/// general position, derived bound. Part 1: eye * 2^ke, target = eye * 2^ke + d * 2^kd (exactly representable, checked), up unscaled: the
+/// linear part is the one of the unscaled triple, the translation the unscaled one times 2^ke. Part 2: narrow angles, d = N B + o1,
+/// up = +-N B + o2 (kappa ~ N), with up and the positions also scaled down by N.
+fn look_float_mixed<T: FlX>(s: &Section) {
+    s.require_classes(&["eye far, view short (close points far from the origin)", "eye near, view long (far target)", "narrow angle, up almost along the view", "narrow angle, up almost against the view",
+        "narrow angle, |up| of order one", "kappa >= 2^8", "eye off origin"]);
+    let th = s.thorough();
+    let dl: i32 = if T::NAME == "f32" { 12 } else { 30 };
+    let mut scales: Vec<(i32, i32)> = vec![(dl, 0), (0, dl), (dl - 4, -4), (-4, dl - 4)];
+    if th { let d2 = dl * 3 / 2; scales.extend([(d2, 0), (0, d2), (-dl, -2 * dl), (3, 3 - dl)]); }
+    let sites: Vec<Vec<String>> = (0..2).map(|lay| (0..6).map(|f| format!("{}<{}>", site(lay, f), T::NAME)).collect()).collect();
+    let worst = std::sync::Mutex::new(0.0f64);
+    let run = |e: &P, t: &P, up: &P, ef: [f64; 3], tf: [f64; 3], uf: [f64; 3], tr_mul: f64, kappa: f64, class: &'static str, cnt: &mut Cnt, wl: &mut f64, extra: Value| {
+        for x in ef.iter().chain(tf.iter()).chain(uf.iter()) { if T::r(*x) != *x { s.rep.machinery_error(format!("input {} not representable in {}", x, T::NAME)); return; } }
+        let (rv_lh, rm_lh, _, _) = ref_view(e, t, up, true);
+        let (rv_rh, rm_rh, _, _) = ref_view(e, t, up, false);
+        let refs = [shadow4(&rv_lh), shadow4(&rv_rh), shadow4(&rm_lh), shadow4(&rm_rh)];
+        let eye1 = e.iter().map(|c| c.abs() as f64).sum::<f64>();
+        cnt.triples += 1; cnt.nontrivial += 1; cnt.hit(class);
+        if kappa >= 256.0 { cnt.hit("kappa >= 2^8"); } if *e != [0, 0, 0] { cnt.hit("eye off origin"); }
+        let cv = |a: &[f64; 3]| [T::f(a[0]), T::f(a[1]), T::f(a[2])];
+        let (e_, t_, u_) = (cv(&ef), cv(&tf), cv(&uf));
+        let inp = || json!({"eye": ef, "target": tf, "up": uf, "integer triple (eye, target, up) of the reference": [e, t, up], "scaling": extra});
+        for lay in 0..2 { for f in 0..6 {
+            let Some(g) = s.call(&sites[lay][f], inp, || call6::<T>(lay, f, &e_, &t_, &u_)) else { continue };
+            let cands: &[usize] = match f { 0 => &[0], 1 => &[1], 2 => &[2], 3 => &[3], 4 => &[0, 1], _ => &[2, 3] };
+            let rs: Vec<(bool, f64)> = cands.iter().map(|&c| judge(&g, &refs[c], kappa, tr_mul, eye1)).collect();
+            let best = best_of(&rs);
+            if best.0 { if best.1 > *wl { *wl = best.1; } } else {
+                emit(s, &sites[lay][f], "wrong-entry-at-mixed-scale-or-narrow-angle", weight(e, t, up), || json!({"input": inp(), "got": jf4(&g), "want (exact reference of the integer triple, rounded; translation column times tr_mul)": refs[cands[0]], "tr_mul": tr_mul,
+                    "tolerance": "256 eps * kappa (linear part), 256 eps * kappa * |eye|_1 * tr_mul (translation), last row exact", "kappa": kappa}));
+            }
+        } }
+    };
+    // part 1: mixed scales
+    let triples: Vec<(P, P, P)> = if th { let (pairs, ups) = look_space(false); let mut v = Vec::new(); for (e, t) in pairs { for u in &ups { v.push((e, t, *u)); } } v } else { small_triples(false) };
+    triples.par_iter().for_each(|(e, t, up)| {
+        let d = sub_i(t, e); let cr = cross_i(up, &d);
+        if cr == [0, 0, 0] { return; }
+        let (mut cnt, mut wl) = (Cnt::default(), 0.0f64);
+        let kappa = ((dot_i(up, up) * dot_i(&d, &d)) as f64 / dot_i(&cr, &cr) as f64).sqrt();
+        for &(ke, kd) in &scales {
+            let (se, sdv) = (p2(ke), p2(kd));
+            let ef = [e[0] as f64 * se, e[1] as f64 * se, e[2] as f64 * se];
+            let tf = [ef[0] + d[0] as f64 * sdv, ef[1] + d[1] as f64 * sdv, ef[2] + d[2] as f64 * sdv]; // exact in f64 (a few bits each side of |ke - kd| <= 60)
+            let uf = [up[0] as f64, up[1] as f64, up[2] as f64];
+            run(e, t, up, ef, tf, uf, se, kappa, if ke > kd { "eye far, view short (close points far from the origin)" } else { "eye near, view long (far target)" }, &mut cnt, &mut wl, json!({"eye_times_2^": ke, "view_times_2^": kd}));
+        }
+        { let mut g = worst.lock().unwrap(); if wl > *g { *g = wl; } }
+        cnt.flush(s, 12);
+    });
+    // part 2: narrow angles
+    let n: i32 = if T::NAME == "f32" { 10 } else { 12 };
+    let big = 1i32 << n;
+    let bases: Vec<P> = if th { vec![[0, 0, 1], [1, 1, 0], [1, -2, 2], [0, -1, 0], [2, 1, -1], [-1, 0, 0], [1, 1, 1]] } else { vec![[0, 0, 1], [1, 1, 0], [1, -2, 2], [0, -1, 0]] };
+    let o1s: [P; 3] = [[0, 0, 0], [1, 0, 0], [0, 1, -1]];
+    let o2s: [P; 5] = [[0, 1, 0], [1, 0, 0], [1, -1, 1], [0, 0, 1], [-1, 2, 0]];
+    let eyes: [P; 2] = [[0, 0, 0], [1, -2, 1]];
+    let mut work: Vec<(P, P, P, bool)> = Vec::new();
+    for b in &bases { for o1 in &o1s { for o2 in &o2s { for anti in [false, true] { for e in &eyes {
+        let d = [big * b[0] + o1[0], big * b[1] + o1[1], big * b[2] + o1[2]];
+        let sg = if anti { -1 } else { 1 };
+        let up = [sg * big * b[0] + o2[0], sg * big * b[1] + o2[1], sg * big * b[2] + o2[2]];
+        if cross_i(&up, &d) == [0, 0, 0] { continue; }
+        work.push((*e, [e[0] + d[0], e[1] + d[1], e[2] + d[2]], up, anti));
+    } } } } }
+    work.par_iter().for_each(|(e, t, up, anti)| {
+        let d = sub_i(t, e); let cr = cross_i(up, &d);
+        let (mut cnt, mut wl) = (Cnt::default(), 0.0f64);
+        let l2 = |v: &P| v.iter().map(|&c| (c as f64) * (c as f64)).sum::<f64>();
+        let kappa = (l2(up) * l2(&d) / l2(&cr)).sqrt();
+        for (kp, ku) in [(0, 0), (0, -n), (-n, -n), (-n, 0)] {
+            let (sp_, su) = (p2(kp), p2(ku));
+            let ef = [e[0] as f64 * sp_, e[1] as f64 * sp_, e[2] as f64 * sp_];
+            let tf = [t[0] as f64 * sp_, t[1] as f64 * sp_, t[2] as f64 * sp_];
+            let uf = [up[0] as f64 * su, up[1] as f64 * su, up[2] as f64 * su];
+            if ku != 0 { cnt.hit("narrow angle, |up| of order one"); }
+            run(e, t, up, ef, tf, uf, sp_, kappa, if *anti { "narrow angle, up almost against the view" } else { "narrow angle, up almost along the view" }, &mut cnt, &mut wl, json!({"positions_times_2^": kp, "up_times_2^": ku}));
+        }
+        { let mut g = worst.lock().unwrap(); if wl > *g { *g = wl; } }
+        cnt.flush(s, 12);
+    });
+    s.meta("worst_observed_error_in_eps_times_scale", json!(*worst.lock().unwrap() / T::EPS));
+    s.meta("allowed_eps_times_scale", json!(vx::fl::K));
+    s.meta("alphabet", json!({"mixed_scale_triples": triples.len(), "(eye exponent, view exponent)": scales, "narrow": {"N": big, "base_directions": bases, "view_offsets": o1s, "up_offsets": o2s, "eyes": eyes, "cases": work.len(), "(positions exponent, up exponent)": [[0, 0], [0, -n], [-n, -n], [-n, 0]]}}));
+    s.sample(json!({"eye": [p2(dl), -2.0 * p2(dl), p2(dl)], "target": [p2(dl) + 1.0, -2.0 * p2(dl), p2(dl) - 1.0], "up": [0, 1, 0], "type": T::NAME, "note": "close points far from the origin: target - eye is exact, |target|^2 + |eye|^2 - 2 target.eye is not"}));
+}
+
+/// change of basis on the 48 exactly orthonormal float bases (signed permutations) x origins of mixed awkward magnitudes: every product has a factor
+/// 0 or +-1, so local_to_basis AND basis_to_local are exact: B = [rows | -+ origin lane]
+fn basis_exact<T: FlX>(s: &Section) {
+    s.require_classes(&["proper (det +1)", "mirror (det -1)", "origin lanes of mixed magnitude (ratio >= 2^60)", "origin lane subnormal", "origin lane at the type's maximum", "origin lane non-dyadic", "identity basis"]);
+    let mut ol: Vec<f64> = vec![0.0, T::r(0.1), -T::r(2.3), p2(T::LIM / 2), -p2(-T::LIM / 2), T::MINSUB, -T::MAXV, T::bump(1.0, 1)];
+    if s.thorough() { ol.extend([3.0, -T::MINPOS, T::EPS / 2.0, T::r(1e6 + 0.25), -T::r(1e-6), p2(T::LIM)]); }
+    let perms: [[usize; 3]; 6] = [[0, 1, 2], [0, 2, 1], [1, 0, 2], [1, 2, 0], [2, 0, 1], [2, 1, 0]];
+    let mut bases: Vec<([usize; 3], [i32; 3])> = Vec::new();
+    for p in perms { for sg in 0..8 { bases.push((p, [if sg & 1 == 0 { 1 } else { -1 }, if sg & 2 == 0 { 1 } else { -1 }, if sg & 4 == 0 { 1 } else { -1 }])); } }
+    let origins: Vec<[f64; 3]> = { let mut v = Vec::new(); for &a in &ol { for &b in &ol { for &c in &ol { v.push([a, b, c]); } } } v };
+    let st_l: Vec<String> = (0..2).map(|lay| format!("{}<{}>", bsite(lay, "local_to_basis"), T::NAME)).collect();
+    let st_b: Vec<String> = (0..2).map(|lay| format!("{}<{}>", bsite(lay, "basis_to_local"), T::NAME)).collect();
+    bases.par_iter().for_each(|(p, sg)| {
+        let mut cnt = Cnt::default();
+        let vecs: Vec<[f64; 3]> = (0..3).map(|r| { let mut v = [0.0f64; 3]; v[p[r]] = sg[r] as f64; v }).collect(); // i, j, k
+        let parity = { let mut inv = 0; for a in 0..3 { for b in a + 1..3 { if p[a] > p[b] { inv += 1; } } } if inv % 2 == 0 { 1 } else { -1 } } * sg[0] * sg[1] * sg[2];
+        let cvt = |a: &[f64; 3]| [T::f(a[0]), T::f(a[1]), T::f(a[2])];
+        let (i, j, k) = (cvt(&vecs[0]), cvt(&vecs[1]), cvt(&vecs[2]));
+        for o in &origins {
+            cnt.triples += 1; if *o != [0.0; 3] { cnt.nontrivial += 1; }
+            cnt.hit(if parity > 0 { "proper (det +1)" } else { "mirror (det -1)" });
+            if *p == [0, 1, 2] && *sg == [1, 1, 1] { cnt.hit("identity basis"); }
+            let nzs: Vec<f64> = o.iter().filter(|x| **x != 0.0).map(|x| x.abs()).collect();
+            if nzs.len() >= 2 { let (mn, mx) = (nzs.iter().cloned().fold(f64::INFINITY, f64::min), nzs.iter().cloned().fold(0.0, f64::max)); if mx / mn >= p2(60) { cnt.hit("origin lanes of mixed magnitude (ratio >= 2^60)"); } }
+            if o.iter().any(|x| *x != 0.0 && x.abs() < T::MINPOS) { cnt.hit("origin lane subnormal"); }
+            if o.iter().any(|x| x.abs() == T::MAXV) { cnt.hit("origin lane at the type's maximum"); }
+            if o.iter().any(|x| *x == T::r(0.1) || *x == -T::r(2.3)) { cnt.hit("origin lane non-dyadic"); }
+            let of = cvt(o);
+            let mut wl = [[0.0f64; 4]; 4]; let mut wb = [[0.0f64; 4]; 4];
+            for r in 0..3 { for c in 0..3 { wl[r][c] = vecs[c][r]; wb[r][c] = vecs[r][c]; } wl[r][3] = o[r]; wb[r][3] = -(sg[r] as f64 * o[p[r]]); }
+            wl[3][3] = 1.0; wb[3][3] = 1.0;
+            let inp = || json!({"origin": o, "i": vecs[0], "j": vecs[1], "k": vecs[2], "type": T::NAME});
+            let w = o.iter().filter(|x| **x != 0.0).count() as u64;
+            for lay in 0..2 {
+                if let Some(g) = s.call(&st_l[lay], inp, || l2b::<T>(lay, &of, &i, &j, &k)) { if !eq4(&g, &wl) { emit(s, &st_l[lay], "not-exact-on-signed-permutation-basis", w, || json!({"input": inp(), "got": jf4(&g), "want": wl})); } }
+                if let Some(g) = s.call(&st_b[lay], inp, || b2l::<T>(lay, &of, &i, &j, &k)) { if !eq4(&g, &wb) { emit(s, &st_b[lay], "not-exact-on-signed-permutation-basis", w, || json!({"input": inp(), "got": jf4(&g), "want (rows i, j, k; translation = -+ origin lane, exact)": wb})); } }
+            }
+        }
+        cnt.flush(s, 4);
+    });
+    s.meta("alphabet", json!({"bases": bases.len(), "origin_lane_values": ol, "origins": origins.len(), "layouts": 2}));
+    s.sample(json!({"i": [0, 0, -1], "j": [1, 0, 0], "k": [0, -1, 0], "origin": [p2(T::LIM / 2), T::MINSUB, T::r(0.1)], "type": T::NAME}));
 }
 
 fn main() {
@@ -1056,7 +1386,7 @@ fn main() {
 
     // ---- 9. operand forms ---------------------------------------------------------------------------
     rep.section("operand forms: every builder called with Vec4, [T; 3], (T, T, T) and Vec2 operands",
-        "the eight builders are generic in V: Into<Vec3<T>> and their doc examples pass Vec4; the sections above pass Vec3 only. Look-at: every non-degenerate triple of eye in {(-2,1,0),(0,0,0),(1,-2,1)}, target-eye in {-1..1}^3 \\ 0 + six longer vectors, up in {-1..1}^3 + six longer vectors, as Vec4 with w = (1,1,0) (point, point, direction) and with junk w = (7,-3,5), as arrays, as tuples, and (triples in the z = 0 plane only) as Vec2; six builders x both layouts on the exact surd field; the decoded matrix must equal the Gram-Schmidt reference (either handedness for the deprecated aliases). Change of basis: Rodrigues bases (quick: every 8th axis; thorough: all) x 12 angles x mirror, origin (2,-1,3/2), as Vec4 (w = 1,0,-4,9), arrays and tuples, both layouts: matrix == [i j k | o] resp. [i;j;k | -i.o,-j.o,-k.o] built from the definition; non-trivial: all",
+        "the eight builders are generic in V: Into<Vec3<T>> and their doc examples pass Vec4; the sections above pass Vec3 only. Look-at: every non-degenerate triple of eye in {(-2,1,0),(0,0,0),(1,-2,1)}, target-eye in {-1..1}^3 \\ 0 + six longer vectors, up in {-1..1}^3 + six longer vectors, as Vec4 with w = (1,1,0) (point, point, direction) and with junk w = (7,-3,5), as arrays, as tuples, and (triples in the z = 0 plane only) as Vec2; six builders x both layouts on the exact surd field; the decoded matrix must equal the Gram-Schmidt reference (either handedness for the deprecated aliases). Change of basis: Rodrigues bases (quick: every 8th axis; thorough: all) x 12 angles x mirror, origin (2,-1,3/2), as Vec4 (w = 1,0,-4,9), arrays and tuples, both layouts: matrix == [i j k | o] resp. [i;j;k | -i.o,-j.o,-k.o] built from the definition; audit round 3 adds the remaining members of the Into<Vec3<T>> family on the same inputs: Extent3 (w,h,d), Rgb (r,g,b), Uvw (u,v,w), mint::Vector3, mint::Point3 and the pair (Vec2, T), and local_to_basis with scalar operands (From<T>, broadcast) on three 4-tuples; non-trivial: all",
         true, false, operand_forms);
 
     // ---- 10. change of basis on float / integer element types ---------------------------------------
@@ -1069,6 +1399,17 @@ fn main() {
         l2b_integers::<i32>(s); l2b_integers::<i64>(s); l2b_integers::<u8>(s);
         s.sample(json!({"type": "u8", "origin": [255, 0, 1], "i": [2, 9, 128], "j": [255, 0, 1], "k": [2, 9, 128]}));
     });
+
+    // ---- 11. audit round 3: special values (nearly unit, nearly parallel, thresholds, non-dyadic, mixed scales) ------------
+    let rule_ax = "cameras whose view direction is along a coordinate axis a (either sense) and whose up vector lies in a coordinate plane containing it, up = p e_b + q e_a: view lane pairs (eye_a, target_a) = (0, +-c) for every c of meta.alphabet (around 1 by 1..8 ulp, 1 +- 2^-10, 1e-3..1e-16 and the type's epsilon, 4 epsilon, sqrt epsilon, epsilon^2 each with both neighbours, non-dyadic decimals, integers whose reciprocal does not multiply back to 1, 2^+-LIM/2, 2^+-LIM) plus pairs away from the origin (0.1 -> 1.1, 1e6 -> 1e6 + 0.5, 3 -> 2^30 and reversed, ...); |p| over the same alphabet, both signs; q in {0, 1, -3*2^20} (thorough: + 0.3, 2^(LIM-2)), i.e. angles between up and the view down to 2^-LIM; the other two eye lanes (0.1, -2.3) or (-3*2^LIM, smallest subnormal); all 6 (a, b) x senses; the full product in both tiers (thorough: longer alphabets: integers 2..200, n/61, 1 + n/1000). ORACLE, exact: in binary floating point sqrt(c*c) = |c| and c/|c| = +-1 whenever c*c neither overflows nor underflows (magnitude policy 2^-LIM <= |c|,|p| <= 2^LIM, LIM = 60 for f32, 500 for f64), up x f has the single non-zero lane -+p because every other product has a factor 0, and each translation entry is one eye lane times +-1 plus zeros; hence view = [s; u; +-f | -+eye lanes] with s, u, f signed unit axes from the signs alone (f = sgn(target_a - eye_a) e_a, u = sgn(p) e_b, s = u x f lh / f x u rh), compared with == entry by entry (either handedness for the deprecated aliases), model likewise; nothing here depends on a tolerance, so a skipped normalisation of a nearly-unit vector, a multiplication by a rounded reciprocal, an epsilon guard on the raw cross product or on a squared length, or a square root of a rounded difference all show; non-trivial: |c| != 1 or |p| != 1";
+    rep.section("look-at: f64, axis-aligned cameras with awkward magnitudes (exact by construction)", rule_ax, true, false, look_axis_exact::<f64>);
+    rep.section("look-at: f32, axis-aligned cameras with awkward magnitudes (exact by construction)", rule_ax, true, false, look_axis_exact::<f32>);
+    let rule_mx = "general position, derived bound of the float tier (linear part within 256 eps kappa of the exact Gram-Schmidt reference of the integer triple, translation within 256 eps kappa |eye|_1 2^ke of reference * 2^ke, last row exact; kappa = |up||d|/|up x d|). Part 1, mixed scales: integer triples (quick: 3 eyes x 32 views x 33 ups; thorough: the quick look-at space) with eye * 2^ke and target = eye * 2^ke + (target - eye) * 2^kd, exactly representable (checked), for (ke, kd) in meta: D = 12 (f32) / 30 (f64): (D,0) (0,D) (D-4,-4) (-4,D-4), thorough + (3D/2,0) (0,3D/2) (-D,-2D) (3,3-D): vek's target - eye is exact, so the reference linear part is the unscaled one and the translation scales with 2^ke; a squared distance expanded as |t|^2 + |e|^2 - 2 t.e, or a translation taken through the target, loses every digit here. Part 2, narrow angles: d = N B + o1, up = +-N B + o2 (N = 2^10 f32 / 2^12 f64, B a small integer direction, o1, o2 small offsets, kappa of order N), unscaled and with up and/or the positions times 1/N (|up| of order one); the bound scales with kappa, a formula whose error scales with kappa^2 (|up x f| = sqrt(|up|^2 - (up.f)^2)) does not fit; non-trivial: all";
+    rep.section("look-at: f64, eye and view at different scales, narrow angles (general position)", rule_mx, true, false, look_float_mixed::<f64>);
+    rep.section("look-at: f32, eye and view at different scales, narrow angles (general position)", rule_mx, true, false, look_float_mixed::<f32>);
+    let rule_be = "the 48 signed permutation matrices are the float bases that are orthonormal exactly; for each, origins = all triples over the lane alphabet {0, 0.1, -2.3, 2^(LIM/2), -2^(-LIM/2), smallest subnormal, -MAX, 1 + ulp} (thorough: + 3, -MIN_POSITIVE, eps/2, 1e6+0.25, -1e-6, 2^LIM), i.e. lanes of wildly different magnitude in one origin; both layouts. Exact oracle (every product has a factor 0 or +-1, no squaring, so no magnitude restriction): local_to_basis == [i j k | origin], basis_to_local == [i; j; k | -(+-origin lane)], last rows (0,0,0,1), compared with ==; a translation snapped or guarded relative to the other lanes, or rebuilt by adding and subtracting a larger term, shows; non-trivial: origin != 0";
+    rep.section("change of basis: f64, signed-permutation bases x origins of mixed awkward magnitudes (exact)", rule_be, true, false, basis_exact::<f64>);
+    rep.section("change of basis: f32, signed-permutation bases x origins of mixed awkward magnitudes (exact)", rule_be, true, false, basis_exact::<f32>);
 
     rep.extra("violations_counted_but_not_materialised", json!(NOT_MATERIALISED.load(Relaxed)));
     std::process::exit(rep.finish());
